@@ -31,6 +31,7 @@ import (
 	"bytes"
 
 	"tunnox-core/internal/client"
+	"tunnox-core/internal/client/mapping"
 	"tunnox-core/internal/utils/iocopy"
 	vc "tunnox-core/internal/verifharness/common"
 )
@@ -627,39 +628,61 @@ func runTCP(toks []string) (string, error) {
 	// a direction is over when its half-close reached the sink; for a sink on which no half-close is
 	// observable: when the goroutine has left its loop (plus a moment for what it does on the way out)
 	settled := map[*gconn]bool{}
+	leftAt := map[*gconn]time.Time{}
 	fin := func(src, sink *gconn) bool {
 		if sink.isCW() || returned.Load() {
 			return true
 		}
-		if sink.kind != "cw" && loopLeft(src, sink) {
-			if !settled[sink] {
-				settled[sink] = true
-				time.Sleep(300 * time.Microsecond)
+		if loopLeft(src, sink) {
+			if sink.kind != "cw" {
+				if !settled[sink] {
+					settled[sink] = true
+					time.Sleep(300 * time.Microsecond)
+				}
+				return true
 			}
-			return true
+			// a sink with CloseWrite is half-closed right after the loop is left; if that does not happen
+			// (it always does in the code as built) do not wait for it longer than this
+			if t0, ok := leftAt[sink]; !ok {
+				leftAt[sink] = time.Now()
+			} else if time.Since(t0) > 100*time.Millisecond {
+				return true
+			}
 		}
 		return false
 	}
 	finAB := func() bool { return fin(A, B) }
 	finBA := func() bool { return fin(B, A) }
+	// one turn of a copy goroutine; a goroutine whose source is a passive peer (script exhausted, tail
+	// "hold") sits in a Read that only returns after the relay has told that peer (half-close): no grant then
+	turn := func(src, sink *gconn, spec epSpec, fin func() bool, hold bool) {
+		if sink.isHeld() || fin() || s.stalls > 0 {
+			return
+		}
+		if src.exhausted() && spec.tail == "hold" {
+			if src.isCW() { // told: the Read returns EOF by itself, the goroutine leaves its loop
+				if !waitUntil(fin, stallTimeout) {
+					s.stall()
+				}
+			}
+			return
+		}
+		if hold {
+			s.grantHeld(src, sink, fin)
+		} else {
+			s.grant(src, fin)
+		}
+	}
 	for _, t := range sc {
 		switch t {
 		case 'a':
-			if !B.isHeld() {
-				s.grant(A, finAB)
-			}
+			turn(A, B, ea, finAB, false)
 		case 'b':
-			if !A.isHeld() {
-				s.grant(B, finBA)
-			}
+			turn(B, A, eb, finBA, false)
 		case 'A': // slow sink B: the Write of this iteration stays in progress
-			if !B.isHeld() {
-				s.grantHeld(A, B, finAB)
-			}
+			turn(A, B, ea, finAB, true)
 		case 'B':
-			if !A.isHeld() {
-				s.grantHeld(B, A, finBA)
-			}
+			turn(B, A, eb, finBA, true)
 		case 'x':
 			s.complete(A, B, finAB)
 		case 'y':
@@ -669,11 +692,12 @@ func runTCP(toks []string) (string, error) {
 	s.complete(A, B, finAB)
 	s.complete(B, A, finBA)
 	for i := 0; i < stepsFor(ea.chunks) && !finAB(); i++ {
-		s.grant(A, finAB)
+		turn(A, B, ea, finAB, false)
 	}
 	for i := 0; i < stepsFor(eb.chunks) && !finBA(); i++ {
-		s.grant(B, finBA)
+		turn(B, A, eb, finBA, false)
 	}
+	turn(A, B, ea, finAB, false)
 	select {
 	case rr := <-ch:
 		if rr.panic != "" {
@@ -831,6 +855,9 @@ func runUDP(toks []string) (string, error) {
 		tchunks = append(tchunks, rest)
 	}
 
+	if toks[0] == "udpv" {
+		return execUDPV(tchunks, ttail, sc), nil
+	}
 	hasHold := strings.ContainsAny(sc, "U")
 	var obs string
 	for attempt := 0; attempt < 5; attempt++ {
@@ -1081,6 +1108,135 @@ func execUDP(evs []uev, dgs [][]byte, utail string, tchunks [][]byte, ttail stri
 	}
 }
 
+// ---------------------------------------------------------------- UDP relay with the real asynchronous local socket
+
+// gpc: the UDP socket under mapping.UDPVirtualConn. Every WriteTo (issued by the session's writeLoop)
+// waits until the scheduler lets the socket accept it; the bytes are read from the caller's slice only then.
+type gpc struct {
+	mu      sync.Mutex
+	waiting atomic.Int64
+	done    atomic.Int64
+	grants  chan struct{}
+	free    atomic.Bool
+	sent    [][]byte
+}
+
+type fakeAddr string
+
+func (a fakeAddr) Network() string { return "udp" }
+func (a fakeAddr) String() string  { return string(a) }
+
+func (g *gpc) WriteTo(p []byte, _ net.Addr) (int, error) {
+	g.waiting.Add(1)
+	if !g.free.Load() {
+		<-g.grants
+	}
+	g.mu.Lock()
+	g.sent = append(g.sent, append([]byte(nil), p...))
+	g.mu.Unlock()
+	g.waiting.Add(-1)
+	g.done.Add(1)
+	return len(p), nil
+}
+func (g *gpc) ReadFrom(p []byte) (int, net.Addr, error) { select {} }
+func (g *gpc) Close() error                             { return nil }
+func (g *gpc) LocalAddr() net.Addr                      { return fakeAddr("local") }
+func (g *gpc) SetDeadline(time.Time) error              { return nil }
+func (g *gpc) SetReadDeadline(time.Time) error          { return nil }
+func (g *gpc) SetWriteDeadline(time.Time) error         { return nil }
+
+// countConn passes everything through to the virtual connection and counts the datagrams it accepted.
+type countConn struct {
+	v      *mapping.UDPVirtualConn
+	writes atomic.Int64
+}
+
+func (c *countConn) Read(p []byte) (int, error) { return c.v.Read(p) }
+func (c *countConn) Write(p []byte) (int, error) {
+	n, err := c.v.Write(p)
+	if err == nil {
+		c.writes.Add(1)
+	}
+	return n, err
+}
+func (c *countConn) Close() error { return c.v.Close() }
+
+// execUDPV: udpv U hold 0 T <tail> 0 tds … s <schedule over t,s>
+// iocopy.UDP between the REAL mapping.UDPVirtualConn (as tunnel.runDataCopy uses it) and a gated tunnel double.
+// t: one iteration of the tunnel->UDP goroutine; s: the socket accepts the next datagram of the send loop.
+func execUDPV(tchunks [][]byte, ttail string, sc string) string {
+	sock := &gpc{grants: make(chan struct{}, 1<<16)}
+	vconn := mapping.VerifNewUDPVirtualConn(sock, fakeAddr("app"))
+	T := newConn("T", tchunks, ttail, false, -1, false, false)
+	var returned atomic.Bool
+	cc := &countConn{v: vconn}
+	ch := runRelay(func() *iocopy.Result { return iocopy.UDP(cc, T, nil) }, &returned)
+	s := &sched{conns: []*gconn{T}}
+	finDec := func() bool { return vconn.VerifClosed() || returned.Load() }
+	pending := func() int { return int(cc.writes.Load() - sock.done.Load()) }
+	send := func() {
+		if pending() == 0 || s.stalls > 0 {
+			return
+		}
+		if !waitUntil(func() bool { return sock.waiting.Load() > 0 }, stallTimeout) {
+			s.stall()
+			return
+		}
+		d := sock.done.Load()
+		sock.grants <- struct{}{}
+		if !waitUntil(func() bool { return sock.done.Load() > d }, stallTimeout) {
+			s.stall()
+		}
+	}
+	stepT := func() {
+		if finDec() || s.stalls > 0 {
+			return
+		}
+		if T.exhausted() {
+			// the end of the tunnel is about to be delivered: the relay will close the session, which stops its
+			// send loop (a datagram still queued then may be dropped: UDP teardown) - let the socket take the queue first
+			for pending() > 0 && s.stalls == 0 {
+				send()
+			}
+		}
+		s.grant(T, finDec)
+	}
+	for _, t := range sc {
+		switch t {
+		case 't':
+			stepT()
+		case 's':
+			send()
+		}
+	}
+	for j := 0; j < stepsFor(tchunks) && !finDec(); j++ {
+		stepT()
+	}
+	select {
+	case rr := <-ch:
+		sock.free.Store(true)
+		if rr.panic != "" {
+			return rr.panic
+		}
+		r := rr.r
+		sock.mu.Lock()
+		defer sock.mu.Unlock()
+		var sb strings.Builder
+		fmt.Fprintf(&sb, "ret 1 tun %s udp %d", vc.Hex(T.stream), len(sock.sent))
+		for _, d := range sock.sent {
+			sb.WriteString(" " + vc.Hex(d))
+		}
+		fmt.Fprintf(&sb, " nread 0 serr %s rerr %s sent %d recv %d", b01(r.SendError != nil), b01(r.ReceiveError != nil),
+			r.BytesSent, r.BytesReceived)
+		return sb.String()
+	case <-time.After(watchdog):
+		timeouts.Add(1)
+		s.stall()
+		sock.free.Store(true)
+		return fmt.Sprintf("timeout stalls %d udp %d", s.stalls, len(sock.sent))
+	}
+}
+
 // ---------------------------------------------------------------- SOCKS5 UDP tunnel codec
 
 // runS5: s5 <eof|err> ds <k> d*k cut <n> ch <k> sizes
@@ -1225,7 +1381,7 @@ func execLine(line string) string {
 	switch toks[0] {
 	case "tcp":
 		obs, err = runTCP(toks)
-	case "udp":
+	case "udp", "udpv":
 		obs, err = runUDP(toks)
 	case "s5":
 		obs, err = runS5(toks)
